@@ -16,7 +16,7 @@ Extraction "model.ml"
   remote_requests coll_page load_page resolve_webfinger jrd_accept wf_uri query_escape split_at wf_scan
   post_media_of post_attachments_of actor_pfp_of actor_banner_of select_best new_link
   post_timestamp actor_timestamp activity_timestamp
-  fetch_user_input source_page
+  fetch_user_input source_page opened_summary
   startup_error
   update run_command run_task settle settle_gated settle_sel is_load is_open snapshot ui_init resize view last_frame last_shown
   config_fields render_with_links gem_render_with_links plain_render_with_links split_nl
